@@ -904,3 +904,91 @@ def simp(v):
             return ('errof', a[1])
         return ('errof', a)
     return tuple(simp(x) if isinstance(x, tuple) else x for x in v)
+
+
+# ----------------------------------------------------------------------------------------
+# liveness of selected locals (backward dataflow over normal edges)
+# ----------------------------------------------------------------------------------------
+def _ops_locals(x, acc):
+    if isinstance(x, dict):
+        if 'local' in x and 'proj' in x:
+            acc.add(x['local'])
+            for e in x['proj']:
+                if isinstance(e, dict) and 'index' in e:
+                    acc.add(e['index'])
+        for v in x.values():
+            _ops_locals(v, acc)
+    elif isinstance(x, list):
+        for v in x:
+            _ops_locals(v, acc)
+
+
+def block_use_def(fn, b, interesting):
+    """(use-before-def set, def set) of a block for the interesting locals; a write through a projection is a use"""
+    use, dfn = set(), set()
+    bl = fn.blocks[b]
+
+    def use_of(x):
+        acc = set()
+        _ops_locals(x, acc)
+        for l in acc:
+            if l in interesting and l not in dfn:
+                use.add(l)
+    for st in bl['stmts']:
+        if st['k'] == 'assign':
+            use_of(st['rv'])
+            pl = st['place']
+            if pl['proj']:
+                use_of(pl)
+            elif pl['local'] in interesting:
+                dfn.add(pl['local'])
+        elif st['k'] == 'dead':
+            if st['local'] in interesting:
+                dfn.add(st['local'])
+    t = bl['term']
+    if t['k'] == 'call':
+        use_of(t['args'])
+        use_of(t['callee'].get('indirect'))
+        if not t['dest']['proj'] and t['dest']['local'] in interesting:
+            pass
+    elif t['k'] == 'switch':
+        use_of(t['op'])
+    elif t['k'] == 'assert':
+        use_of(t['cond'])
+    elif t['k'] == 'drop':
+        use_of(t['place'])
+    elif t['k'] == 'return':
+        if 0 in interesting and 0 not in dfn:
+            use.add(0)
+    return use, dfn
+
+
+def live_after_call(fn, call_block, interesting):
+    """interesting locals live at the start of the call's normal successor (i.e. possibly used after the call)"""
+    blocks = sorted(fn.normal_blocks())
+    ud = {b: block_use_def(fn, b, interesting) for b in blocks}
+    # the destination of a call is defined at the edge to its target: treat as def at the start of the successor
+    live_in = {b: set() for b in blocks}
+    changed = True
+    while changed:
+        changed = False
+        for b in reversed(blocks):
+            out = set()
+            for s in fn.succ(b):
+                if s in live_in:
+                    li = set(live_in[s])
+                    out |= li
+            t = fn.term(b)
+            if t['k'] == 'call' and not t['dest']['proj']:
+                out.discard(t['dest']['local'])
+            use, dfn = ud[b]
+            new = use | (out - dfn)
+            if new != live_in[b]:
+                live_in[b] = new
+                changed = True
+    t = fn.term(call_block)
+    tgt = t.get('target')
+    res = set(live_in.get(tgt, set())) if tgt is not None else set()
+    if not t['dest']['proj']:
+        res.discard(t['dest']['local'])
+    return res
